@@ -16,6 +16,9 @@ class Arm:
     other_types: list = field(default_factory=list)  # unresolved / builtin type names
     literals: list = field(default_factory=list)
     opaque: bool = False
+    body: list = field(default_factory=list)  # statements executed for this arm (the `if` body / the table row's handler body)
+    subject_name: str = None  # how the dispatched value is called inside `body`
+    lineno: int = 0
 
 
 @dataclass
@@ -130,9 +133,23 @@ def find_chains(project, func):
             tail = cur.body
         if not tail or not isinstance(tail[-1], ast.Raise) or len(tail) != 1:
             continue
+        tests = _prefix_arms(node) + tests
         ch = _build_chain(project, func, module, fcfg, node, tests, tail)
         if ch is not None:
             out.append(ch)
+    # the same dispatch driven by a table of (class, handler) rows
+    for blk in _blocks(func.node):
+        for i, st in enumerate(blk):
+            if isinstance(st, ast.For) and enclosing(st, (ast.FunctionDef, ast.AsyncFunctionDef)) is func.node:
+                tail = None
+                if st.orelse and isinstance(st.orelse[-1], ast.Raise) and len(st.orelse) == 1:
+                    tail = st.orelse[0]
+                elif not st.orelse and i + 1 < len(blk) and isinstance(blk[i + 1], ast.Raise):
+                    tail = blk[i + 1]
+                if tail is not None:
+                    ch = _table_chain(project, func, module, st, tail)
+                    if ch is not None:
+                        out.append(ch)
     # the same dispatch written as a sequence: `if A: return ...` / `if B: return ...` / ... / `raise E`
     for blk in _blocks(func.node):
         i = 0
@@ -152,6 +169,50 @@ def find_chains(project, func):
                 i = max(j, i + 1)
     return out
 
+
+
+def _prefix_arms(head):
+    """tests of the `if ...: return` chains that precede `head` in its block (separated at most by plain assignments,
+    expressions and nested defs): `if A: return a / elif B: return b` + setup + `if C: ... else: raise` is one dispatch"""
+    par = getattr(head, "_parent", None)
+    blk = None
+    for fld in ("body", "orelse", "finalbody"):
+        b = getattr(par, fld, None)
+        if isinstance(b, list) and any(x is head for x in b):
+            blk = b
+    if blk is None:
+        return []
+    out = []
+    subject_names = {x.id for x in ast.walk(head.test) if isinstance(x, ast.Name)}
+    i = next(k for k, x in enumerate(blk) if x is head) - 1
+    while i >= 0:
+        st = blk[i]
+        if isinstance(st, ast.If):
+            tests, cur, good = [], st, True
+            while True:
+                tests.append(cur.test)
+                if not _terminates(cur.body):
+                    good = False
+                    break
+                if len(cur.orelse) == 1 and isinstance(cur.orelse[0], ast.If):
+                    cur = cur.orelse[0]
+                elif cur.orelse:
+                    good = False
+                    break
+                else:
+                    break
+            if not good:
+                break
+            out = tests + out
+        elif isinstance(st, (ast.Assign, ast.AnnAssign, ast.Expr, ast.FunctionDef, ast.Pass)):
+            # the dispatched value must still be the same one
+            stored = {x.id for x in ast.walk(st) if isinstance(x, ast.Name) and isinstance(x.ctx, ast.Store)} if not isinstance(st, ast.FunctionDef) else {st.name}
+            if stored & subject_names:
+                break
+        else:
+            break
+        i -= 1
+    return out
 
 
 def _terminates(body):
@@ -206,6 +267,9 @@ def _build_chain(project, func, module, fcfg, node, tests, tail):
         else:
             arm.opaque = True
             arm.subject = None
+        owner = getattr(arm.test, "_parent", None)
+        if isinstance(owner, ast.If) and owner.test is arm.test:
+            arm.body, arm.lineno = owner.body, owner.lineno
         arms.append(arm)
     if not subjects:
         return None
@@ -217,11 +281,90 @@ def _build_chain(project, func, module, fcfg, node, tests, tail):
         kind = "literal"
     else:
         return None
+    # one isinstance test with `else: raise` is a precondition (`if not isinstance(x, T): raise` written the other
+    # way round), not a dispatch over a family
+    if kind == "class" and len(mine) == 1 and len(tests) == 1:
+        return None
     # arms on another subject / opaque arms do not cover anything
     for a in arms:
         if getattr(a, "subject", None) != subject:
             a.classes, a.other_types, a.literals, a.opaque = [], [], [], True
+    for a in arms:
+        if a.subject_name is None:
+            a.subject_name = subject
     return Chain(func=func, head=node, subject=subject, kind=kind, arms=arms, fallthrough=r, fall_exc=fall_exc)
+
+
+def _scope_lookup(node, name):
+    """the statements binding `name` in the function scopes enclosing `node` (innermost first), then the module"""
+    cur = node
+    while cur is not None:
+        cur = getattr(cur, "_parent", None)
+        if isinstance(cur, (ast.FunctionDef, ast.AsyncFunctionDef, ast.Module)):
+            found = []
+            todo = list(cur.body)
+            while todo:
+                st = todo.pop(0)
+                if isinstance(st, (ast.FunctionDef, ast.AsyncFunctionDef, ast.ClassDef)):
+                    if st.name == name:
+                        found.append(st)
+                    continue
+                if isinstance(st, ast.Assign) and any(isinstance(t, ast.Name) and t.id == name for t in st.targets):
+                    found.append(st)
+                for fld in ("body", "orelse", "finalbody"):
+                    todo += [x for x in getattr(st, fld, []) or [] if isinstance(x, ast.stmt)]
+                for h in getattr(st, "handlers", []) or []:
+                    todo += h.body
+            if found:
+                return found
+    return []
+
+
+def _table_chain(project, func, module, loop, tail):
+    """`for T, handler in TABLE: if isinstance(x, T): handler(x); return` + `raise E`: a dispatch whose arms are the
+    rows of TABLE (a literal list of (class, function) pairs bound once in an enclosing scope)."""
+    if not (isinstance(loop.target, ast.Tuple) and len(loop.target.elts) == 2 and all(isinstance(e, ast.Name) for e in loop.target.elts)):
+        return None
+    tname, hname = (e.id for e in loop.target.elts)
+    if not (len(loop.body) == 1 and isinstance(loop.body[0], ast.If) and not loop.body[0].orelse):
+        return None
+    iff = loop.body[0]
+    t = iff.test
+    if not (isinstance(t, ast.Call) and isinstance(t.func, ast.Name) and t.func.id == "isinstance" and len(t.args) == 2 and isinstance(t.args[1], ast.Name) and t.args[1].id == tname and isinstance(t.args[0], ast.Name)):
+        return None
+    if not _terminates(iff.body):
+        return None
+    subject = t.args[0].id
+    table = loop.iter
+    if isinstance(table, ast.Name):
+        defs = _scope_lookup(loop, table.id)
+        if len(defs) != 1 or not isinstance(defs[0], ast.Assign):
+            return None
+        table = defs[0].value
+    if not (isinstance(table, (ast.List, ast.Tuple)) and table.elts and all(isinstance(r, ast.Tuple) and len(r.elts) == 2 for r in table.elts)):
+        return None
+    # which argument of the handler receives the subject
+    hcall = next((c for st in iff.body for c in ast.walk(st) if isinstance(c, ast.Call) and isinstance(c.func, ast.Name) and c.func.id == hname), None)
+    pos = next((i for i, a in enumerate(hcall.args) if isinstance(a, ast.Name) and a.id == subject), None) if hcall is not None else None
+    arms = []
+    for row in table.elts:
+        arm = Arm(test=row.elts[0], lineno=row.lineno)
+        parts = _isinstance_parts(project, module, ast.Call(func=ast.Name(id="isinstance", ctx=ast.Load()), args=[t.args[0], row.elts[0]], keywords=[]), func.node)
+        if parts:
+            arm.classes, arm.other_types = parts[1], parts[2]
+        arm.subject = subject
+        arm.subject_name = subject
+        h = row.elts[1]
+        if isinstance(h, ast.Name) and pos is not None:
+            hd = [d for d in _scope_lookup(loop, h.id) if isinstance(d, (ast.FunctionDef, ast.AsyncFunctionDef))]
+            if len(hd) == 1 and pos < len(hd[0].args.args):
+                arm.body, arm.subject_name, arm.lineno = hd[0].body, hd[0].args.args[pos].arg, hd[0].lineno
+        elif isinstance(h, ast.Lambda) and pos is not None and pos < len(h.args.args):
+            arm.body, arm.subject_name = [ast.copy_location(ast.Expr(value=h.body), h)], h.args.args[pos].arg
+        arms.append(arm)
+    r = tail
+    exc = r.exc.func if isinstance(r.exc, ast.Call) else r.exc
+    return Chain(func=func, head=loop, subject=subject, kind="class", arms=arms, fallthrough=r, fall_exc=src(exc) if exc is not None else "<reraise>")
 
 
 def class_family_root(project, classes):
@@ -258,7 +401,31 @@ def class_domain(project, chain):
         return root, domain, domain, []
     covered = [c for c in domain if any(t in project.mro(c) for t in tested)]
     missing = [c for c in domain if c not in covered]
+    # an intermediate base (`class _Nary(Expression)` with Sum/Product below it) that is never constructed itself has no
+    # instances of its own: it is covered when all of its subclasses are
+    for c in list(missing):
+        subs = project.subclasses(c, strict=True)
+        if subs and all(s_ in covered for s_ in subs) and c.name not in _constructed_names(project):
+            missing.remove(c)
+            covered.append(c)
     return root, domain, covered, missing
+
+
+def _constructed_names(project):
+    """last name component of everything that is called anywhere in the package (a superset of the classes constructed)"""
+    got = getattr(project, "_constructed_names", None)
+    if got is None:
+        got = set()
+        for m in project.modules.values():
+            for n in ast.walk(m.tree):
+                if isinstance(n, ast.Call):
+                    f = n.func
+                    if isinstance(f, ast.Name):
+                        got.add(f.id)
+                    elif isinstance(f, ast.Attribute):
+                        got.add(f.attr)
+        project._constructed_names = got
+    return got
 
 
 def literal_domain(project, chain, cfg=None):
